@@ -7,7 +7,7 @@ INV = ["OneRecordPerTasking", "NoRecordWithoutTasking", "PointingReflectsTasking
 PROPS = ["NonInterference", "CommitAtomic"]
 def cfg(name, T, S, E="E1", ET="AllT", ES="AllS", pol="PolGreedy", nsteps=2, out=1, est=True, ser=False,
         reset=False, squared=False, keep=False, prio_all=False, prune_eq=False, events="NoEvents", dt=1,
-        IT=None, IS=None, faults=False, partial=False, out_dt=None, interf=False, live=False):
+        IT=None, IS=None, faults=False, partial=False, out_dt=None, interf=False, live=False, span=None):
     B = lambda b: "TRUE" if b else "FALSE"
     txt = f"""SPECIFICATION {'FairSpec' if live else 'Spec'}
 CONSTANTS
@@ -20,6 +20,7 @@ CONSTANTS
   EngSensors <- {ES}
   Policy <- {pol}
   NSteps = {nsteps}
+  SpanSteps = {nsteps if span is None else span}
   Dt = {dt}
   OutDt = {out_dt or out * dt}
   Events <- {events}
@@ -69,3 +70,4 @@ cfg("greedy33", "T3", "S3", nsteps=1)
 cfg("munkres33", "T3", "S3", pol="PolMunkres", nsteps=1)
 cfg("random33", "T3", "S3", pol="PolRandom", nsteps=1)
 cfg("munkres22_3steps", "T2", "S2", pol="PolMunkres", nsteps=3, out=2)
+cfg("beyond_span", "T1", "S1", nsteps=4, span=2, out=2, faults=True)
